@@ -10,6 +10,7 @@ import (
 	"encoding/json"
 	"fmt"
 	"net/http"
+	"sort"
 	"strings"
 	"time"
 
@@ -542,6 +543,7 @@ func c10List(tier string) []vh.Scenario {
 	for k, v := range c10Cases(tier) {
 		out = append(out, vh.Scenario{Name: k, Weight: len(v)})
 	}
+	sort.Slice(out, func(i, j int) bool { return out[i].Name < out[j].Name }) // map order differs between processes
 	return out
 }
 
